@@ -14,6 +14,8 @@ R = {
   ('inlined-literal: text trimmed', 'eval2-r4', 'plsql.go', 'return NeutalString\\(expr.Val\\), nil', 'return NeutalString(strings.TrimSpace(expr.Val)), nil'),
  ],
  'C03': [
+  ("group records: member list grown on the input's storage", 'pipeline5-r1', 'plsql.go', 'rows: append\\(make\\(\\[\\]any, 0\\), item\\)\\}', 'rows: append(current[:0], item)}'),
+  ('group records: every group gets the whole input', 'pipeline5-r1', 'plsql.go', 'current\\["\\*"\\] = entry.rows', 'current["*"] = groups[0].rows'),
   ('fold-helper: MIN starts from 0', 'funcs2-r2', 'functions.go', 'foldNumbers\\(args, math.MaxFloat64, func', 'foldNumbers(args, 0, func'),
   ('fold-helper: MIN keeps the larger', 'funcs2-r2', 'functions.go', 'if number < min \\{\\n\\t\\t\\treturn number', 'if number > min {\n\t\t\treturn number'),
   ('fold-helper: member count off by one', 'funcs2-r2', 'functions.go', 'return folded, allNull, len\\(\\*slice\\), nil', 'return folded, allNull, len(*slice) - 1, nil'),
@@ -30,12 +32,16 @@ R = {
   ('[]byte key: length without terminator', 'joinsel4-r4', 'join.go', "\\t\\t\\tkey = append\\(key, ':'\\)\\n", ''),
  ],
  'C05': [
+  ('limitWindow: limit not clamped', 'pipeline5-r2', 'plsql.go', 'return rows\\[:min\\(limit, len\\(rows\\)\\)\\]', 'return rows[:min(limit, cap(rows))]'),
   ('window helper: limit not clamped', 'pipeline2-r5', 'plsql.go', '\\tif limit >= len\\(rs\\) \\{\\n\\t\\tlimit = len\\(rs\\)\\n\\t\\}\\n\\treturn rs\\[:limit\\]', '\treturn rs[:limit]'),
   ('window helper: offset test off by one', 'pipeline2-r5', 'plsql.go', '\\tif offset >= len\\(rs\\) \\{\\n\\t\\treturn nil\\n\\t\\}\\n\\trs = rs\\[offset:\\]', '\tif offset > len(rs) {\n\t\treturn nil\n\t}\n\trs = rs[offset+0:]'),
   ('rowSorter: i and j swapped', 'pipeline3-r4', 'sort.go', 'rs, err := Compare\\(sorter.rows, i, j, sorter.orderBy\\)', 'rs, err := Compare(sorter.rows, j, i, sorter.orderBy)'),
   ('rowSorter: sorts by the first key only', 'pipeline3-r4', 'sort.go', 'sorter := rowSorter\\{rows: slice, orderBy: orderBy\\}', 'sorter := rowSorter{rows: slice, orderBy: orderBy[:1]}'),
  ],
  'C07': [
+  ('lazyCte factory: rows stored as a plain value', 'pipeline5-r7', 'plsql.go', '\\t\\tregistry\\[name\\] = CteEvaluation\\(func\\(\\) \\(any, error\\) \\{\\n\\t\\t\\treturn rs, nil\\n\\t\\t\\}\\)\\n', '\t\tregistry[name] = rs\n'),
+  ("lazyCte factory: memo stored into the inner query's data", 'pipeline5-r7', 'plsql.go', '\\t\\tregistry\\[name\\] = CteEvaluation\\(func\\(\\) \\(any, error\\) \\{\\n\\t\\t\\treturn rs, nil', '\t\tquery.data[name] = CteEvaluation(func() (any, error) {\n\t\t\treturn rs, nil'),
+  ('waitFor helper: EXISTS no longer chains the nested wait group', 'eval5-r2', 'plsql.go', '\\tquery.waitFor\\(q\\)\\n', ''),
   ('cteThunk record: rows stored as a plain value', 'eval3-r7', 'plsql.go', '\\tthunk.data\\[thunk.cte.ID.String\\(\\)\\] = CteEvaluation\\(func\\(\\) \\(any, error\\) \\{\\n\\t\\treturn rs, nil\\n\\t\\}\\)\\n', '\tthunk.data[thunk.cte.ID.String()] = rs\n'),
   ('cteThunk record: the evaluating thunk put back', 'eval3-r7', 'plsql.go', '\\tthunk.data\\[thunk.cte.ID.String\\(\\)\\] = CteEvaluation\\(func\\(\\) \\(any, error\\) \\{\\n\\t\\treturn rs, nil\\n\\t\\}\\)\\n', '\tthunk.data[thunk.cte.ID.String()] = CteEvaluation(thunk.evaluate)\n'),
  ],
@@ -48,6 +54,7 @@ R = {
   ('dimension loop: two dimensions dropped', 'joinsel2-r7', 'selector.go', '\\t\\tindex := dimensions\\[0\\]\\n\\t\\tdimensions = dimensions\\[1:\\]', '\t\tindex := dimensions[0]\n\t\tdimensions = dimensions[2:]'),
  ],
  'C10': [
+  ('lazyCte factory: cycle guard dropped', 'pipeline5-r7', 'plsql.go', '\\t\\tregistry\\[name\\] = CteEvaluation\\(func\\(\\) \\(any, error\\) \\{\\n\\t\\t\\treturn nil, EXPECTATION_FAILED[^\\n]*\\n\\t\\t\\}\\)\\n', ''),
   ('goroutine method: no recover', 'eval2-r5', 'plsql.go', '\\tdefer query.reportPanic\\(\\)\\n\\t_, err := function\\(query, current, nil, args\\)', '\t_, err := function(query, current, nil, args)'),
   ('goroutine method: Add dropped', 'eval2-r5', 'plsql.go', '\\t\\t\\tquery.wg.Add\\(1\\)\\n\\t\\t\\tgo query.fireAndForget\\(function, current, slice, true\\)', '\t\t\tgo query.fireAndForget(function, current, slice, true)'),
   ('goroutine method: Done not deferred', 'eval2-r5', 'plsql.go', '\\tif tracked \\{\\n\\t\\tdefer query.wg.Done\\(\\)\\n\\t\\}\\n\\tdefer query.reportPanic\\(\\)', '\tdefer query.reportPanic()\n\tif tracked {\n\t\tquery.wg.Done()\n\t}'),
@@ -64,6 +71,8 @@ R = {
   ('joinCollector: rows appended without the mutex', 'joinsel3-r2', 'join.go', '\\tcase ok:\\n\\t\\t\\{\\n\\t\\t\\tcollector.mut.Lock\\(\\)\\n\\t\\t\\tcollector.slice = append\\(collector.slice, matches...\\)\\n\\t\\t\\tcollector.mut.Unlock\\(\\)', '\tcase ok:\n\t\t{\n\t\t\tcollector.slice = append(collector.slice, matches...)'),
  ],
  'C14': [
+  ('detachedCall: ASYNC never fills its slot', 'eval5-r1', 'plsql.go', '\\t\\*slot = value\\n', '\t_ = value\n'),
+  ('detachedCall: SPINASYNC not signalled', 'eval5-r1', 'plsql.go', 'func \\(call \\*detachedCall\\) discardAndSignal\\(\\) \\{\\n\\tdefer call.query.wg.Done\\(\\)\\n', 'func (call *detachedCall) discardAndSignal() {\n'),
   ('post-processor helper: not run', 'pipeline2-r4', 'plsql.go', '\\tif err := query.runPostProcessors\\(\\); err != nil \\{\\n\\t\\treturn nil, err\\n\\t\\}\\n\\treturn rs, nil', '\treturn rs, nil'),
   ('pending column: other row', 'pipeline2-r3', 'plsql.go', 'column := pendingColumn\\{row: data, name: name, value: pending\\}', 'column := pendingColumn{row: current, name: name, value: pending}'),
   ('pending column: pointer stored', 'pipeline2-r3', 'plsql.go', '\\tcolumn.row\\[column.name\\] = value\\n', '\tcolumn.row[column.name] = column.value\n\t_ = value\n'),
@@ -71,6 +80,8 @@ R = {
   ('awaitCall record: no second wait', 'eval4-r1', 'plsql.go', '\\tcall.query.wg.Wait\\(\\)\\n', ''),
  ],
  'C15': [
+  ('Compare form C: right operand not tested', 'funcs5-r8', 'compare/compare.go', 'if isNumber\\(a\\) && isNumber\\(b\\) \\{', 'if isNumber(a) {'),
+  ('Compare form C: int is not a number', 'funcs5-r8', 'compare/compare.go', 'case int, int32, int64, int16, int8, uint, uint32, uint64, uint16, byte, float32, float64:\\n\\t\\treturn true', 'case int32, int64, int16, int8, uint, uint32, uint64, uint16, byte, float32, float64:\n\t\treturn true'),
   ('non-generic compare: left operand truncated', 'funcs3-r3', 'compare/compare.go', 'return Cmp\\(As\\[float64\\]\\(a\\), t\\)', 'return Cmp(As[int64](a), t)'),
   ('non-generic compare: float32 dropped from the dispatch', 'funcs3-r3', 'compare/compare.go', 'case int, int32, int64, int16, int8, uint, uint64, uint32, uint16, byte, float32, float64:\\n\\t\\t\\{\\n\\t\\t\\treturn compare\\(a, b\\)', 'case int, int32, int64, int16, int8, uint, uint64, uint32, uint16, byte, float64:\n\t\t{\n\t\t\treturn compare(a, b)'),
   ('non-generic compare: operands swapped and negated', 'funcs3-r3', 'compare/compare.go', 'return Cmp\\(As\\[float64\\]\\(a\\), t\\)', 'return -Cmp(As[float64](t), a)'),
@@ -80,6 +91,8 @@ R = {
   ('form B: texts in the wrong order', 'funcs4-r6', 'compare/compare.go', '\\ty, ok := number\\(b\\)\\n\\tif !ok \\{\\n\\t\\treturn strings.Compare\\(text\\(a\\), text\\(b\\)\\)', '\ty, ok := number(b)\n\tif !ok {\n\t\treturn strings.Compare(text(b), text(a))'),
  ],
  'C16': [
+  ('quotedState: backslash escapes inside backticks', 'funcs5-r4', 'sanitizer/sanitizer.go', "return quotedState\\(l, '`', false\\)", "return quotedState(l, '`', true)"),
+  ('skipPast: a one-line comment ends at CR LF only', 'funcs5-r6', 'sanitizer/sanitizer.go', 'return skipPast\\(l, "\\\\n"\\)', 'return skipPast(l, "\\r\\n")'),
   ('unused scan by slices.Index: result ignored', 'funcs4-r4', 'sanitizer/sanitizer.go', '\\tif i := slices.Index\\(argUse, false\\); i >= 0 \\{\\n\\t\\treturn "", fmt.Errorf\\("unused argument: %d", i\\)\\n\\t\\}\\n', '\t_ = slices.Index(argUse, false)\n'),
   ('merged quoted state: backslash arm removed', 'funcs4-r5', 'sanitizer/sanitizer.go', '\\t\\tcase .\\\\\\\\.:\\n\\t\\t\\t// the parser honours backslash escapes: the next rune is part of the literal\\n\\t\\t\\t_, width = utf8.DecodeRuneInString\\(l.src\\[l.pos:\\]\\)\\n\\t\\t\\tl.pos \\+= width\\n\\t\\tcase quote:', '\t\tcase quote:'),
   ('merged quoted state: double-quote state ends at the single quote', 'funcs4-r5', 'sanitizer/sanitizer.go', 'func doubleQuoteState\\(l \\*sqlLexer\\) stateFn \\{\\n\\treturn quotedState\\(l, .".\\)', 'func doubleQuoteState(l *sqlLexer) stateFn {\n\treturn quotedState(l, 39)'),
@@ -88,10 +101,12 @@ R = {
   ('quoted-region helper: ends at the escaped byte', 'funcs4-r3', 'processors.go', '\\t\\t\\tbuffer.WriteByte\\(str\\[i\\+1\\]\\)\\n\\t\\t\\ti\\+\\+\\n\\t\\t\\}\\n\\t\\}\\n\\treturn i - 1, nil', '\t\t\tbuffer.WriteByte(str[i+1])\n\t\t\tc = str[i+1]\n\t\t\ti++\n\t\t}\n\t}\n\treturn i - 1, nil'),
  ],
  'C18': [
+  ('decoder table: base32 decoded with another alphabet', 'funcs5-r3', 'functions.go', 'return base32.StdEncoding.DecodeString, nil', 'return base32.HexEncoding.DecodeString, nil'),
   ('table-hash: constructors swapped', 'funcs2-r1', 'functions.go', '"sha1":   sha1.New,\\n\\t"sha256": sha256.New', '"sha1":   sha256.New,\n\t"sha256": sha1.New'),
   ('envelope helper: gob id no longer primed', 'funcs3-r8', 'functions.go', '\\t_ = encodeEnvelope\\(io.Discard, nil\\)\\n', ''),
  ],
  'C19': [
+  ('parallelMatches: result forgets the first error', 'joinsel5-r3', 'join.go', '\\tif p.firstErr != nil \\{\\n\\t\\treturn nil, p.firstErr\\n\\t\\}\\n\\treturn p.rows, nil', '\treturn p.rows, nil'),
   ('result record: first error never returned', 'joinsel2-r2', 'join.go', '\\tif result.firstErr != nil \\{\\n\\t\\treturn nil, result.firstErr\\n\\t\\}\\n\\treturn result.rows, nil', '\treturn result.rows, nil'),
   ('result record: fail drops the error', 'joinsel2-r2', 'join.go', '\\tif p.firstErr == nil \\{\\n\\t\\tp.firstErr = err\\n\\t\\}\\n', '\t_ = err\n'),
   ('post-processor helper: error skipped', 'pipeline2-r4', 'plsql.go', '\\t\\tif err := postProcessor\\(\\); err != nil \\{\\n\\t\\t\\treturn err\\n\\t\\t\\}\\n\\t\\}\\n\\treturn nil', '\t\tif err := postProcessor(); err != nil {\n\t\t\tcontinue\n\t\t}\n\t}\n\treturn nil'),
